@@ -8,6 +8,7 @@ import shutil
 
 from .. import audit, classify, drive, hist, snap, world
 
+TECHNIQUE = 'runtime monitoring: fault enumeration over every chained manifest x edit kind x command, with snapshot differ and audit-hook monitor for writes'
 LEVEL = "fault_enumeration"
 RULE = (
     "scenario = history with 1-5 generations and 0-3 nested histories (depth<=3); faults = every manifest of every history x "
